@@ -190,20 +190,20 @@ func (_this *BuilderEventReceiver) OnCustomText(customType uint64, value string)
 	_this.context.CurrentBuilder.BuildFromCustomText(&_this.context, customType, value, _this.object)
 }
 func (_this *BuilderEventReceiver) OnArrayBegin(arrayType events.ArrayType) {
-	_this.context.BeginArray(func(ctx *Context) {
+	_this.context.BeginArray(arrayType.ElementSize(), func(ctx *Context) {
 		bytes := ctx.chunkedData
 		elementCount := common.ByteCountToElementCount(arrayType.ElementSize(), uint64(len(bytes)))
 		_this.OnArray(arrayType, elementCount, bytes)
 	})
 }
 func (_this *BuilderEventReceiver) OnMediaBegin(mediaType string) {
-	_this.context.BeginArray(func(ctx *Context) {
+	_this.context.BeginArray(8, func(ctx *Context) {
 		bytes := ctx.chunkedData
 		ctx.CurrentBuilder.BuildFromMedia(ctx, mediaType, bytes, _this.object)
 	})
 }
 func (_this *BuilderEventReceiver) OnCustomBegin(arrayType events.ArrayType, customType uint64) {
-	_this.context.BeginArray(func(ctx *Context) {
+	_this.context.BeginArray(8, func(ctx *Context) {
 		bytes := ctx.chunkedData
 		switch arrayType {
 		case events.ArrayTypeCustomBinary:
